@@ -4,13 +4,14 @@ dotted path / constructor keyword (incl. map or configuration -> sub-configurati
 single-element insert / replace on typed lists and dicts; the document-load clause (parse
 failure, unresolvable include) is decided on spec/CincoInclude.tla by harness/props/c18.py's
 machinery (see loadfail below)."""
-from . import cfgmachine
+from . import cfgfamily, cfgmachine
 
 
 def run(tier, seed):
     out = cfgmachine.run_machine("C06", [], ["C06_Unchanged"], tier, seed)
     # second instance: the textual / numeric field classes inside a configuration
     out = cfgmachine.merge(out, cfgmachine.run_machine("C06", [], ["C06_Unchanged"], tier, seed + 7, schema="SchemaB"))
+    out = cfgmachine.merge(out, cfgfamily.run_family("C06", [], ["C06_Unchanged"], tier, seed))
     try:
         from . import loadfail
     except ImportError:
